@@ -764,6 +764,40 @@ impl<'a> Gen<'a> {
         self.emit(format!("tx u2 {} fm createfarm {} {} {} uusdc {} db{}", funds_str(&funds), lp, cur + 1, cur + 5, aa, tag));
     }
 
+    /// directed scenario for C06: one user with three open positions whose identifiers alternate between two LP tokens
+    /// (u-ia… lp1, u-ib… lp2, u-ic… lp1), a farm on lp1, two epochs, two claims: every epoch must be paid once
+    pub fn op_scenario_interleaved_positions(&mut self) {
+        let lps: Vec<String> = self.run.h.lps.clone();
+        // two LP tokens with holders; the user holds the first and, if need be, is sent some of the second
+        let held: Vec<String> = lps.iter().filter(|l| !self.lp_holders(l).is_empty()).cloned().collect();
+        if held.len() < 2 { return self.op_provide(); }
+        let (lp1, lp2) = (held[0].clone(), held[1].clone());
+        let u = self.lp_holders(&lp1)[0];
+        if self.run.h.w.balance(u, &lp2) <= 10 {
+            let h2 = self.lp_holders(&lp2)[0];
+            let amt = self.run.h.w.balance(h2, &lp2) / 3 + 1;
+            self.emit(format!("send {} {} 1 {} {}", h2, u, lp2, amt));
+        }
+        if self.run.h.w.balance(u, &lp1) <= 10 || self.run.h.w.balance(u, &lp2) <= 10 { return self.op_provide(); }
+        let tag = self.r.below(10_000);
+        let cur = self.cur_epoch();
+        let real1 = self.run.h.w.rd(&lp1);
+        if !self.farms().iter().any(|f| f.lp_denom == real1) {
+            let aa = 10_000 + self.r.below(100_000) as u128;
+            let asset = coin(aa, "uusdc");
+            let funds = self.farm_fee_funds(&asset);
+            self.emit(format!("tx u1 {} fm createfarm {} {} {} uusdc {} il{}", funds_str(&funds), lp1, cur + 1, cur + 11, aa, tag));
+        }
+        let (b1, b2) = (self.run.h.w.balance(u, &lp1), self.run.h.w.balance(u, &lp2));
+        self.emit(format!("tx {} 1 {} {} fm createpos ia{} {} -", u, lp1, b1 / 9 + 1, tag, DAY));
+        self.emit(format!("tx {} 1 {} {} fm createpos ib{} {} -", u, lp2, b2 / 9 + 1, tag, DAY));
+        self.emit(format!("tx {} 1 {} {} fm createpos ic{} {} -", u, lp1, b1 / 11 + 1, tag, DAY * 2));
+        self.emit(format!("advance {}", 2 * DAY * 1_000_000_000));
+        self.emit(format!("tx {} 0 fm claim -", u));
+        self.emit(format!("advance {}", DAY * 1_000_000_000));
+        self.emit(format!("tx {} 0 fm claim -", u));
+    }
+
     /// directed scenario for C07 / C11: more farms on one LP token than any default page size (10): the limit is
     /// raised to 11..13, that many farms are created with identifiers whose byte order differs from creation
     /// order, a user locks LP, two epochs pass and the user claims (every active farm must pay its share)
@@ -949,7 +983,8 @@ pub fn gen_fm_case(r: &mut Rng, id: u64, len: u64, faults: bool, o: &mut Out) {
     for _ in 0..6 { g.op_provide(); }
     // every second case starts with one directed scenario, in rotation, whatever the seed
     if let Some(k) = scen {
-        match k % 9 {
+        match k % 10 {
+            9 => g.op_scenario_interleaved_positions(),
             8 => g.op_scenario_many_farms(),
             7 => g.op_scenario_expand_long_farm(),
             0 => g.op_scenario_piecewise_close(),
@@ -982,7 +1017,8 @@ pub fn gen_fm_case(r: &mut Rng, id: u64, len: u64, faults: bool, o: &mut Out) {
             39 => if g.r.chance(1, 3) { g.op_scenario_double_autoclose() } else { g.op_advance() },
             40 => if g.r.chance(1, 2) { g.op_scenario_piecewise_close() } else { g.op_advance() },
             41 => match g.r.below(4) { 0 | 1 => g.op_scenario_close_after_claim(), 2 => g.op_scenario_many_farms(), _ => g.op_advance() },
-            42 | 43 | 44 => { g.op_query_misc(); g.ops += 1; }
+            42 | 43 => { g.op_query_misc(); g.ops += 1; }
+            44 => if g.r.chance(1, 3) { g.op_scenario_interleaved_positions() } else { g.op_query_misc(); g.ops += 1; },
             _ => g.op_advance(),
         }
     }
